@@ -261,3 +261,21 @@ contract(V1 + "TagExpression.store_and_extract_limits", props=["C08"], params={"
                  "self.ands[len(self.ands) - 1][k] == colon_head(tags[k]))))",
              "earlier-groups-kept": "forall(lambda k: implies(0 <= k < old(len(self.ands)), self.ands[k] is old(self.ands[k])))",
          })
+
+# -- v1: every alternative of a comma-separated OR group is kept, normalized, in order (generator function) ------------
+oracle("or_parts", ["val"], "val")       # expr.strip().split(',') as a list of texts
+contract("abs:or_parts", trusted=True, pos_params=["self", "sep"], pure=True, result="seq:str",
+         ensures={"value": "result is or_parts(self)"}, doc="expr.strip().split(','): the alternatives of one OR group (A-str)")
+contract("abs:TagExpression.normalize_tag.view", trusted=True, pos_params=["tag"], pure=True, result="str",
+         ensures={"value": "result == norm_tag(tag)"}, doc="call-site view of normalize_tag (proved above against the spelling rules)")
+oracle("norm_tag", ["val"], "val:str")
+contract(V1 + "TagExpression.normalized_tags_from_or", props=["C08", "C09"], params={"expr": "str"}, result="seq:str",
+         callsites={"expr.strip().split": "abs:or_parts", "cls.normalize_tag": "abs:TagExpression.normalize_tag.view"},
+         loops=[Loop(modifies=["yields"], invariant={
+             "one-normalized-tag-per-alternative-so-far-in-order":
+                 "len(yielded()) == _i and forall(lambda k: implies(0 <= k < _i, yielded()[k] == norm_tag(_at(k))))",
+             "same": "_seq is or_parts(expr.strip())"})],
+         ensures={"one-normalized-tag-per-alternative-in-order-none-dropped":
+                  "len(result) == len(as_list(or_parts(expr.strip()), 'str')) and forall(lambda k: implies(0 <= k < len(result), "
+                  "result[k] == norm_tag(as_list(or_parts(expr.strip()), 'str')[k])))"},
+         doc="'a,-a' (a or not a) keeps both alternatives: the group is always true; dropping one changes the formula")
